@@ -105,4 +105,12 @@ PROPS = {
         level_note="Trusted: Lean kernel; Model/SelectorParse.lean (hand-written recognisers for the three regular expressions, strconv range rules) and Model/PolicyIpld.lean render parsing.go / ipld.go by hand, checked differentially; \\p{L} is a parameter instantiated with Go's unicode.IsLetter; operator strings are regenerated facts. Partial with respect to the English statement: 'print then re-parse gives the same meaning' is covered by the differential stream (printed text compared) and by C14_nothing_dropped, the idempotence theorem parse (print sel) = ok sel is not yet proved.",
         assumptions=["dagjson.Decode (go-ipld-prime) is outside the model: the DAG-JSON path is compared on the node as it reads back from its own JSON text"],
     ),
+    "C08": dict(
+        props_module="Ucan.Props.C08",
+        streams=["sealed"],
+        technique="Lean 4 proof (mutual structural recursion over the IPLD tree) that a lenient CBOR decoder inverts the canonical DAG-CBOR encoder, hence the encoding is injective and prefix-free and accepted bytes are exactly the canonical encoding of their content, so equal content ⇒ equal bytes ⇒ equal CID; tied by differential runs against go-ipld-prime's dagcbor and by every single-tweak re-encoding of real sealed tokens through all six unsealing APIs",
+        level_text="C08_decode_encode, C08_prefix_free, C08_encode_injective, C08_canonical (accept b = some n ⇒ b = encode n), C08_accept_encode, C08_unique_cid (two accepted byte strings with the same content are equal, so their CIDs are), C08_cid_distinct. The CID reported by ToSealed/ToSealedWriter/FromSealed/FromSealedReader (generic and typed) is compared with an independent CIDv1(dag-cbor, sha2-256) for Ed25519, secp256k1, P-256 (RSA in the thorough tier); every re-encoding of each sealed token (wider head at each item, indefinite length at each string/list/map, swapped map entries, extra outer element) and key-less signature re-encodings are offered to every unsealing function.",
+        level_note="Trusted: Lean kernel; dagcbor (go-ipld-prime/refmt), go-cid, go-multihash and SHA-256 are dependencies represented by Model/Cbor.lean and the parameter sha256 — the model is validated against dagcbor differentially, not proved. Uniqueness of the CID for a given signed content additionally needs each signature scheme to admit one signature encoding per (key, message): measured by the stream — holds for Ed25519/RSA, refuted for ECDSA (open known finding F-C08-ecdsa-signature-malleability).",
+        assumptions=["SHA-256 is a parameter of the model (collision resistance is named where used, never proved)", "half- and single-precision floats, indefinite lengths and CBOR 'undefined' are rejected by the model's decoder; go-ipld-prime decodes them and the canonical re-encoding check then rejects them, so acceptance agrees"],
+    ),
 }
